@@ -184,3 +184,6 @@ func VerifHarness_C03_eddsa_keygen_n2t1() { verifC03Check(verifRunKeygen(2, 1, 0
 func VerifHarness_C03_eddsa_keygen_n3t1() { verifC03Check(verifRunKeygen(3, 1, 0), 3, 1) }
 func VerifHarness_C03_eddsa_keygen_n3t2() { verifC03Check(verifRunKeygen(3, 2, 0), 3, 2) }
 func VerifHarness_C03_eddsa_keygen_n3t1_bigkeys() { verifC03Check(verifRunKeygen(3, 1, 1), 3, 1) }
+
+// a threshold of 3 (degree-3 polynomials: the public shares need key powers up to k^3)
+func VerifHarness_C03_eddsa_keygen_n4t3() { verifC03Check(verifRunKeygen(4, 3, 0), 4, 3) }
